@@ -3,6 +3,8 @@ pub mod c01;
 pub mod c02;
 pub mod c06;
 pub mod c07;
+pub mod c09;
+pub mod c10;
 pub mod c19;
 pub mod c04;
 pub mod c05;
@@ -23,6 +25,8 @@ pub fn run(id: &str, tier: &str, seed: u64) -> Option<i32> {
         "C06" => go!("C06", "exploration", c06),
         "C07" => go!("C07", "exploration", c07),
         "C19" => go!("C19", "exploration", c19),
+        "C09" => go!("C09", "exploration", c09),
+        "C10" => go!("C10", "exploration", c10),
         "C04" => go!("C04", "exploration", c04),
         "C05" => go!("C05", "exploration", c05),
         "C12" => go!("C12", "exploration", c12),
@@ -37,6 +41,8 @@ pub fn replay(id: &str, case: &serde_json::Value) -> Option<CheckResult> {
         "C06" => Some(c06::replay(case)),
         "C07" => Some(c07::replay(case)),
         "C19" => Some(c19::replay(case)),
+        "C09" => Some(c09::replay(case)),
+        "C10" => Some(c10::replay(case)),
         "C04" => Some(c04::replay(case)),
         "C05" => Some(c05::replay(case)),
         "C12" => Some(c12::replay(case)),
